@@ -8,6 +8,9 @@ SIM = os.path.join(VERIF, "sim")
 GO = "go1.26.8"
 
 # property -> engine package, manifest level
+# packages whose lock boundaries get automatic yield points in the world engines (tools/lockinject)
+LOCKPKGS = dict(packages=["./client", "./watcher/local", "./wire"])
+
 PROPS = {
     "C01": dict(engine="machine", level="exploration"),
     "C02": dict(engine="machine", level="exploration"),
@@ -17,13 +20,13 @@ PROPS = {
     "C13": dict(engine="link", level="fault_enumeration"),
     "C14": dict(engine="link", level="exploration"),
     "C16": dict(engine="link", level="fault_enumeration"),
-    "C03": dict(engine="world", level="exploration"),
-    "C04": dict(engine="world", level="exploration"),
-    "C06": dict(engine="world", level="exploration"),
-    "C08": dict(engine="world", level="exploration"),
-    "C07": dict(engine="world", level="exploration"),
-    "C12": dict(engine="world", level="exploration", hang_is_lockup=True),
-    "C05": dict(engine="watcher", level="exploration"),
+    "C03": dict(engine="world", level="exploration", inject=LOCKPKGS),
+    "C04": dict(engine="world", level="exploration", inject=LOCKPKGS),
+    "C06": dict(engine="world", level="exploration", inject=LOCKPKGS),
+    "C08": dict(engine="world", level="exploration", inject=LOCKPKGS),
+    "C07": dict(engine="world", level="exploration", inject=LOCKPKGS),
+    "C12": dict(engine="world", level="exploration", hang_is_lockup=True, inject=LOCKPKGS),
+    "C05": dict(engine="watcher", level="exploration", inject=LOCKPKGS),
     "C18": dict(engine="relay", level="exploration", race=True, inject=["wire/relay.go", "wire/cache.go", "wire/receiver.go"]),
     "C20": dict(engine="multi", level="exploration", race=True),
 }
@@ -54,14 +57,33 @@ class Harness(Exception):
     """exit-2 class trouble"""
 
 
-def instrumented_copy(tmp, files):
-    """scratch copy of the repository under test with automatically inserted yield points (cmd/yieldinject)"""
+def instrumented_copy(tmp, inject):
+    """scratch copy of the repository under test with automatically inserted yield points.
+    inject is a list of files (cmd/yieldinject: yields before top-level lock calls) or a dict
+    {"packages": [...]} (tools/lockinject: type-aware, yields at every lock boundary plus a count of
+    held standard mutexes so that the simulator never parks under one)"""
     dst = os.path.join(tmp, "repo-inst")
     if os.path.exists(dst):
         return dst
     p = subprocess.run(["rsync", "-a", "--exclude", ".git", repo_path().rstrip("/") + "/", dst + "/"], stdout=subprocess.PIPE, stderr=subprocess.STDOUT, text=True)
     if p.returncode != 0:
         raise Harness("copying the repository failed: " + p.stdout)
+    if isinstance(inject, dict):
+        tool = os.path.join(tmp, "lockinject")
+        tdir = os.path.join(VERIF, "tools", "lockinject")
+        p = subprocess.run([GO, "build", "-o", tool, "."], cwd=tdir, env=env_base(), stdout=subprocess.PIPE, stderr=subprocess.STDOUT, text=True)
+        if p.returncode != 0:
+            raise Harness("building lockinject failed: " + p.stdout)
+        p = subprocess.run([tool, dst] + inject["packages"], env=env_base(), stdout=subprocess.PIPE, stderr=subprocess.STDOUT, text=True)
+        if p.returncode != 0:
+            log(p.stdout)
+            raise Harness("lock injection failed")
+        log("instrumented copy: " + p.stdout.strip().splitlines()[-1])
+        for l in p.stdout.splitlines():
+            if l.startswith("warning:"):
+                log("  " + l)
+        return dst
+    files = inject
     tool = os.path.join(tmp, "yieldinject")
     p = subprocess.run([GO, "build", "-o", tool, "./cmd/yieldinject"], cwd=SIM, env=env_base(), stdout=subprocess.PIPE, stderr=subprocess.STDOUT, text=True)
     if p.returncode != 0:
